@@ -335,6 +335,56 @@ def build(rng, chunk, maxw, base, p, cause):
         live.finish()
 
 
+def gen_write_close(rng, tier):
+    """(1) zero-length writes queued behind a pending connect, then a close for every cause;
+       (2) several writes queued behind a blocked socket, one writable event flushes the earlier write(s)
+           completely (or almost) and the next send of the same pass fails."""
+    out = []
+    W = lambda x: ["write", x]
+    word = lambda: s_(bytes(rng.choice(b"pqrs") for _ in range(rng.randrange(1, 6))))
+    n1 = 14 if tier == "quick" else 120
+    closes = [[["close", False]], [["close", True]], [["event", False, True, False, True, False]],
+              [["event", True, True, True, False, True], ["runcb"]], [["event", False, False, True, False, False], ["runcb"]],
+              [["read", ["bytes", 2, False]], ["arrive", ["eof"]], EV_R], [["read", ["until", "x", 1]], ["arrive", ["data", "abc"]], EV_R],
+              [["read", ["bytes", 1, False]], ["arrive", ["err", True]], EV_R]]
+    for i in range(n1):
+        ops = []
+        if rng.random() < 0.4:
+            ops.append(["setcb"])
+        ops.append(["connect", False])
+        ops.append(W(""))
+        k = rng.random()
+        if k < 0.3:
+            ops.append(W(""))
+        elif k < 0.55:
+            ops.append(W(word()))
+        ops += closes[i % len(closes)]
+        ops += [["runcb"], W("z"), ["close", False], ["runcb"]]
+        out.append(mkcase(rng.choice([4, 64]), 4096, ops))
+    n2 = 30 if tier == "quick" else 300
+    for i in range(n2):
+        ws = [word() for _ in range(rng.randrange(2, 5))]
+        ops = []
+        if rng.random() < 0.3:
+            ops.append(["setcb"])
+        if rng.random() < 0.25:
+            ops += [["connect", False], EV_W]
+        for w in ws:                                            # each write() tries one send: block them all
+            ops += [["script", ["block"]], W(w)]
+        cut = rng.randrange(1, len(ws))                       # the writes before `cut` are flushed completely
+        acc = sum(len(w) for w in ws[:cut]) + rng.choice([0, 0, 0, -1, 1])
+        if rng.random() < 0.3:                                  # flushed in two sends
+            a1 = rng.randrange(1, max(2, acc))
+            ops += [["script", ["accept", a1]], ["script", ["accept", max(1, acc - a1)]]]
+        else:
+            ops.append(["script", ["accept", max(1, acc)]])
+        ops.append(["script", ["err", rng.random() < 0.5]])
+        ops.append(rng.choice([EV_W, EV_W, EV_RW, W(word())]))
+        ops += [["runcb"], W("z"), ["close", False], ["runcb"]]
+        out.append(mkcase(64, 4096, ops, maxw=rng.choice([None, None, 64])))
+    return out
+
+
 def gen_cases(rng, tier):
     out, seen = [], set()
 
@@ -369,6 +419,8 @@ def gen_cases(rng, tier):
         for i in range(30):
             chunk, maxw, base = gen_base(rng, rng.randrange(1, 7), budget=6 if i % 3 == 0 else 11)
             sweep(chunk, maxw, base, range(len(base) + 1), True)
+    for c in gen_write_close(rng, tier):
+        add(c)
     return out
 
 
@@ -609,6 +661,12 @@ def failures(case, obs):
                             out.append("step %d: read %r completed at close with non-conforming %r" % (i, req, o))
                     elif O11.is_closed_outcome(o) and satisfiable(req, buf_after):
                         out.append("step %d: pending read %r failed although the buffered %r satisfies it" % (i, req, buf_after))
+                elif k_ == "write" and not O11.is_closed_outcome(o):
+                    # every write future still pending when the stream closes fails with StreamClosedError (the real
+                    # error is checked by (c)): _handle_write resolves futures only after a send loop that did not
+                    # fail, and nothing runs after it in the same step, so a write can never *succeed* in the step
+                    # that closes the stream
+                    out.append("step %d: write future %d pending at close got %r instead of StreamClosedError" % (i, f, o))
                 elif not (O11.is_closed_outcome(o) or o == "ok"):
                     out.append("step %d: %s future %d got %r" % (i, k_, f, o))
             exp = expected_errors(case, obs, i, base_err)
